@@ -454,7 +454,10 @@ def run_tm_case(ctx: Ctx | None, case: dict) -> None:
             if kind in ("register", "replace"):
                 _, nm, mode, dur = op
                 name = "n%d" % nm
-                last_call.pop(name, None)
+                if kind == "register":
+                    # replace calls that are still waiting keep acting later: they stay in the group
+                    keep = tuple(x for x in last_call.get(name, ("", (), None))[1] if not x[1].done())
+                    last_call[name] = ("register", keep, None)
                 kw = {"delay": 0.5} if mode == 1 else {"interval": 1.0} if mode == 2 else {}
                 active = tm.is_pending_task_active(name)
                 if kind == "register":
@@ -484,10 +487,14 @@ def run_tm_case(ctx: Ctx | None, case: dict) -> None:
                     tag = ("replace", len(last_call), counter[0], id(op))
                     rfut = tm.replace_task(name, make_body(name, dur, olds=olds, chained_call=not active and bool(pend),
                                                            tag=tag), **kw)
-                    last_call[name] = ("replace", tag, rfut)
+                    # replace calls for one name that overlap (none of them followed by another kind of operation on the
+                    # name) form one group: the statement does not say which of them wins
+                    prev = last_call.get(name)
+                    last_call[name] = ("replace", (*(prev[1] if prev else ()), (tag, rfut)), rfut)
             elif kind == "cancel":
                 name = "n%d" % op[1]
-                last_call.pop(name, None)
+                keep = tuple(x for x in last_call.get(name, ("", (), None))[1] if not x[1].done())
+                last_call[name] = ("cancel", keep, None)
                 tm.cancel_pending_task(name)
                 if op[2]:
                     # cancel immediately followed by a registration under the same name (same loop iteration)
@@ -526,12 +533,16 @@ def run_tm_case(ctx: Ctx | None, case: dict) -> None:
         # after the old one has finished"): every chained wait is at most one clean-up (0.25 s) long, delays are 0.5 / 1 s
         if last_call and not shutdown_done[0]:
             await asyncio.sleep(0.5 * len(case["ops"]) + 3.0)
-            for name, (_, tag, rfut) in sorted(last_call.items()):
-                if tag not in started:
+            for name, (last_kind, group, rfut) in sorted(last_call.items()):
+                if last_kind != "replace":
+                    continue
+                tags = [t for t, _ in group]
+                if not any(t in started for t in tags):
                     state = "pending" if not rfut.done() else "cancelled" if rfut.cancelled() else \
                         f"failed with {rfut.exception()!r}"[:120] if rfut.exception() is not None else "registered"
-                    fail("T2", "replacement_lost", f"the last replace_task for {name!r} never started its task although "
-                                                   f"nothing cancelled or replaced it (its future is {state})")
+                    fail("T2", "replacement_lost", f"{len(tags)} replace_task call(s) for {name!r} were the last thing asked for "
+                                                   f"that name, yet none of their tasks ever started (the last call's future "
+                                                   f"is {state})")
         await tm.shutdown_task_manager()
         shutdown_done[0] = True
         await asyncio.sleep(30)
